@@ -257,6 +257,19 @@ def check_artefact(ctx, a, stats):
             # y index.  Brackets instead of "second order" tolerances: by the mean value
             # theorem dpsi = |Dx r| * mean_chord(grad psi . ex_hat), chord/arc = mean(t.c).
             dpsi = np.broadcast_to(dpsi_at(reg, loc, neigh), R.shape)
+            # "per unit dx": the dx stored for this location must be the psi difference across
+            # the chord the displacement clause uses (between the neighbouring cell centres at
+            # an x-face - across a separatrix these belong to different regions whose cells
+            # have different widths).  The checker's own dpsi is used below, so without this
+            # clause a wrong stored dx would go unnoticed.
+            if "dx" in A and loc in A["dx"]:
+                fdx = np.broadcast_to(np.asarray(A["dx"][loc], dtype=float), R.shape) if \
+                    np.asarray(A["dx"][loc]).shape[0] == R.shape[0] else None
+                if fdx is not None:
+                    vdx = np.isfinite(dpsi)
+                    rep.check("stored dx = psi difference between the neighbouring grid points", loc,
+                              np.abs(np.where(vdx, fdx - dpsi, 0.0)), 1e-10 * np.abs(np.where(vdx, dpsi, 1.0)) + 1e-14,
+                              vdx, extra=dict(stored=fdx, expected=dpsi))
             ey = np.hypot(dyR, dyZ)
             with np.errstate(invalid="ignore", divide="ignore"):
                 exR, exZ = dxR / ex, dxZ / ex
